@@ -37,8 +37,7 @@ Print Assumptions c10_recovery_converges_partial.
 Theorem c10_flags_only_loosen :
   forall (d d' : devs) (sh : shape) (I : dimg) (m : obj -> cell),
     (dev_R2 d = true -> dev_R2 d' = true) /\ (dev_R3 d = true -> dev_R3 d' = true)
-    /\ (dev_R5 d = true -> dev_R5 d' = true) /\ (dev_R6 d = true -> dev_R6 d' = true)
-    /\ (dev_R7 d = true -> dev_R7 d' = true) ->
+    /\ (dev_R5 d = true -> dev_R5 d' = true) /\ (dev_R6 d = true -> dev_R6 d' = true) ->
     quiet d sh I m = true -> quiet d' sh I m = true.
 Proof. exact quiet_mono. Qed.
 Print Assumptions c10_flags_only_loosen.
@@ -78,10 +77,3 @@ Print Assumptions c10_recovery_converges_refuted_R5.
 Theorem c10_recovery_converges_refuted_R6 : refutes only_R6 witness_R6 = true.
 Proof. exact dev_R6_refutes. Qed.
 Print Assumptions c10_recovery_converges_refuted_R6.
-
-(* R7: the recovered block skipped its initial continuous-check run (pre group Completed at the crash): its sequences
-   ran ungated, the plan ended Completed, the uninterrupted run ends Failed.  Nothing is left Running (the automaton
-   accepts the witness without flags): only the outcome clause of mon_converges is false. *)
-Theorem c10_recovery_converges_refuted_R7 : refutes_outcome only_R7 witness_R7 = true.
-Proof. exact dev_R7_refutes. Qed.
-Print Assumptions c10_recovery_converges_refuted_R7.
